@@ -32,29 +32,25 @@ fn main() {
     let path = dir.path().join("p.mv2");
     let mut mem = Memvid::create(&path).unwrap();
     mem.enable_lex().unwrap();
-    for instant in [false, true] {
-        let opts = PutOptions { search_text: Some("alpha one".into()), timestamp: Some(1_700_000_000),
-            auto_tag: false, extract_dates: false, extract_triplets: false, instant_index: instant, ..Default::default() };
-        println!("seq {:?}", mem.put_bytes_with_options(b"alpha one", opts));
-        let opts = PutOptions { timestamp: Some(1_700_000_000),
-            auto_tag: false, extract_dates: false, extract_triplets: false, instant_index: instant, ..Default::default() };
-        println!("seq {:?}", mem.put_bytes_with_options(b"alpha two", opts));
+    for (i, t) in ["alpha one", "alpha two", "beta three"].iter().enumerate() {
+        let opts = PutOptions { search_text: Some(t.to_string()), timestamp: Some(1_700_000_000), 
+            auto_tag: false, extract_dates: false, extract_triplets: false, instant_index: true, ..Default::default() };
+        println!("seq {:?}", mem.put_bytes_with_options(t.as_bytes(), opts));
     }
+    // invalid utf8 payload, text mime
+    let mut meta = memvid_core::DocMetadata::default();
+    meta.mime = Some("text/plain".into());
+    let opts = PutOptions { timestamp: Some(1_700_000_000), uri: Some("mv2://bin/x.txt".into()), metadata: Some(meta),
+        auto_tag: false, extract_dates: false, extract_triplets: false, instant_index: false, ..Default::default() };
+    println!("seq {:?}", mem.put_bytes_with_options(b"gamma \xff\xfe\xfd delta gamma", opts));
     mem.commit().unwrap();
-    for f in vh::verif_frames(&mem) { println!("  frame {} status {:?} uri {:?} st {:?}", f.id, f.status, f.uri, f.search_text); }
-    show(&mut mem, "alpha");
-    show(&mut mem, "* date:[* TO *]");
-    show(&mut mem, "alp* date:[* TO *]");
-    show(&mut mem, "date:[2023-01-01 TO 2024-01-01]");
-    show(&mut mem, "date:[2023-01-01 TO 2024-01-01] al*");
-    mem.delete_frame(2).unwrap();
-    mem.commit().unwrap();
-    println!("after delete 2");
-    show(&mut mem, "alpha");
-    show(&mut mem, "* date:[* TO *]");
-    show(&mut mem, "date:[2023-01-01 TO 2024-01-01] al*");
-    show(&mut mem, "al*");
-    show(&mut mem, "* uri:mv2://frames/2");
-    show(&mut mem, "* scope:mv2://frames");
-    show(&mut mem, "alpha uri:mv2://frames/2");
+    for f in vh::verif_frames(&mem) { println!("  frame {} status {:?} uri {:?} st {:?} role {:?} enc {:?}", f.id, f.status, f.uri, f.search_text, f.role, f.canonical_encoding); }
+    show(&mut mem, "gamma");
+    show(&mut mem, "uri:mv2://d0/x");
+    let mut r = req("* scope:mv2://frames", 10);
+    println!("{:?}", mem.search(r.clone()).map(|r| (r.engine, r.hits.iter().map(|h| (h.frame_id, h.uri.clone())).collect::<Vec<_>>())));
+    r.uri = Some("mv2://frames/1".into());
+    println!("with uri filter d1: {:?}", mem.search(r.clone()).map(|r| (r.engine, r.hits.iter().map(|h| (h.frame_id, h.uri.clone())).collect::<Vec<_>>())));
+    r.uri = None; r.scope = Some("mv2://frames/2".into());
+    println!("with scope filter d2: {:?}", mem.search(r.clone()).map(|r| (r.engine, r.hits.iter().map(|h| (h.frame_id, h.uri.clone())).collect::<Vec<_>>())));
 }
